@@ -6,6 +6,7 @@ cd "$(dirname "$0")/.."
 for S in $SEEDS; do
   for P in C01 C02 C03 C04 C05 C06 C07 C08 C09 C10 C11 C12 C13 C14 C15 C16 C17 C18 C19 C20; do
     OUT=$(VERIF_SEED=$S python3 run_check.py $P --tier $TIER 2>&1); RC=$?
+    mkdir -p /tmp/run_all_logs; echo "$OUT" > /tmp/run_all_logs/${P}_${TIER}_$S.log
     echo "seed=$S rc=$RC $(echo "$OUT" | grep -v KNOWN-FINDING | grep "^C[0-9][0-9] \|VIOLATION\|HARNESS" | tr '\n' ' ' | cut -c1-300)"
   done
 done
